@@ -157,6 +157,7 @@ pub fn core_families(rep: &mut Report, thorough: bool) {
 	run_into(rep, "M", fam::fam_same(body, thorough), &cfg);
 	run_into(rep, "W", fam::fam_unchecked(body), &cfg);
 	run_into(rep, "K", fam::fam_kill(thorough), &cfg);
+	run_into(rep, "K2", fam::fam_kill2(thorough), &cfg);
 	run_into(rep, "Z", fam::fam_duplicates(), &cfg);
 	run_into(rep, "Q", fam::fam_rekey(), &cfg);
 	run_into(rep, "U", fam::fam_unlock(thorough), &cfg);
@@ -269,6 +270,10 @@ pub fn check_c09(tier: &str) -> ! {
 	let fr = run_family_with("R", &progs, &cfg, Some(&c09_hook));
 	eprintln!("  family R programs={} states={} transitions={} execs={} contended={} completions={} found={} [{:.1}s]", fr.programs, fr.stats.states, fr.stats.transitions, fr.stats.executions, fr.contended_programs, fr.stats.completions, fr.found.len(), t.elapsed().as_secs_f64());
 	absorb(&mut rep, &progs, &cfg, fr);
+	// the back-off also when its first member is killed (safe `RawLock::poison`) between acquisition and rollback
+	let kprogs = fam::fam_c09_kill();
+	let fr = run_family_with("R-kill", &kprogs, &cfg, Some(&c09_hook));
+	absorb(&mut rep, &kprogs, &cfg, fr);
 	// a deadlock or an incomplete acquisition in these families is this property's "still completes" clause
 	// a deadlock, or a thread waiting for a lock it holds itself, in these families means the retrying
 	// acquisition never completes
@@ -295,6 +300,7 @@ pub fn check_c11(tier: &str) -> ! {
 		("N+panic", fam::with_panics(&fam::fam_pairs_of(&fam::nested_specs(), "N", body, &[Flavour::Guard, Flavour::ScopedLent, Flavour::ScopedOwned]))),
 		("X+panic", fam::with_panics(&fam::fam_pairs_of(&fam::mixed_specs(), "X", body, &[Flavour::Guard, Flavour::ScopedTryOwned]))),
 		("D+panic", fam::with_panics(&fam::fam_d(body))),
+		("K2+panic", fam::with_panics(&fam::fam_kill2(thorough))),
 	];
 	if thorough {
 		fams.push(("A3+panic", fam::with_panics(&fam::fam_a(3, true, body))));
